@@ -414,6 +414,14 @@ package deflate
 //@ pure posInv(table []uint16, historySize int, relative int, offset int, slack int) bool = offset >= historySize || (relative == 0 && (forall h :: 0 <= h && h < len(table) ==> int(table[h]) <= offset + slack))
 //@ pure lzPre(table []uint16, mask uint32, historySize int, input []byte, processed int, offset int, tokens []token, maxToken int) bool = (mask == 4095 || mask == 32767) && len(table) == int(mask)+1 && (historySize == 4096 || historySize == 32768) && len(input) <= 65794 && 0 <= offset && offset <= len(input) && 0 <= maxToken && maxToken <= 32767 && len(tokens) <= maxToken && cap(tokens) >= 32768
 
+// every token the matcher appends is counted in the histogram (a symbol with count zero gets no code and would be
+// written as zero bits). Stated under the hypothesis that no counter is near wrap-around at entry: the counters are
+// emptied together with the token list, so they stay below 2*32768, but that bound is not carried through the callers'
+// contracts - the clause pins the matcher's own behaviour (each return path counts what it appended).
+//@ pure cntSmall(h *histogram) bool = (forall s :: 0 <= s && s < 513 ==> h.literalCodes[s] <= 1073741824) && (forall d :: 0 <= d && d < 31 ==> h.distanceCodes[d] <= 1073741824)
+//@ pure tokCounted(t token, h *histogram) bool = h.literalCodes[uint32(t)&1023] != 0 && ((uint32(t)>>10)&511 < 30 ==> h.distanceCodes[(uint32(t)>>10)&511] != 0)
+//@ pure cntGrow(h *histogram, n int) bool = (forall s :: 0 <= s && s < 513 ==> h.literalCodes[s] <= 1073741824 + uint32(n)) && (forall d :: 0 <= d && d < 31 ==> h.distanceCodes[d] <= 1073741824 + uint32(n))
+
 //@ func lz77
 //@   requires lzPre(table, mask, historySize, input, processed, offset, tokens, maxToken) && hist != nil
 //@   requires[C01 pos-inv] posInv(table, historySize, processed - offset, offset, 0)
@@ -425,6 +433,7 @@ package deflate
 //@   ensures[C01 C10 consumed] len(ntokens) <= maxToken ==> (flush ==> nOffset == len(input)) && (!flush ==> nOffset + 8 >= len(input))
 //@   ensures[C01 pos-inv] posInv(table, historySize, processed - old(offset), nOffset, 0)
 //@   ensures[C01 C14 tokens-ok] tokensOK(ntokens)
+//@   ensures[C01 C10 tokens-counted] old(cntSmall(hist)) ==> (forall k :: old(len(tokens)) <= k && k < len(ntokens) ==> tokCounted(ntokens[k], hist))
 //@   ensures@5[C01 C10 tail-literal-count] nOffset - len(ntokens) == atentry(offset) - atentry(len(tokens))
 //@   assert call append 2 [C01 C19 match-token] 3 <= matchLength && matchLength <= 258 && 1 <= dist && int(dist) <= historySize && int(dist) <= offset && offset + matchLength <= len(input)
 //@   assert call compare 1 [C01 first8] forall k :: 0 <= k && k < 8 ==> input[prev+k] == input[offset+k]
@@ -438,12 +447,15 @@ package deflate
 //@   loop 1 invariant old(offset) <= offset && offset <= len(input) && end == len(input) - 8 && relative == processed - old(offset) && len(tokens) <= maxToken && sameobj(tokens, old(tokens)) && cap(tokens) == old(cap(tokens)) && len(tokens) >= old(len(tokens))
 //@   loop 1 invariant posInv(table, historySize, relative, offset, 0)
 //@   loop 1 invariant tokensOK(tokens)
+//@   loop 1 invariant[C01 tokens-counted] old(cntSmall(hist)) ==> cntGrow(hist, offset - old(offset)) && (forall k :: old(len(tokens)) <= k && k < len(tokens) ==> tokCounted(tokens[k], hist))
 //@   loop 2 invariant 0 <= i && i <= 3 && posInv(table, historySize, relative, offset, 2)
 //@   loop 3 invariant int(repeat) <= 300 && offset == atentry(offset) + 258*int(repeat) && matchLength == atentry(matchLength) - 258*int(repeat) && offset <= len(input) && matchLength <= len(input) && offset + matchLength <= end && end == len(input) - 8 && matchLength >= 0 && len(tokens) <= maxToken && sameobj(tokens, old(tokens)) && cap(tokens) == old(cap(tokens)) && len(tokens) >= old(len(tokens)) && 1 <= dist && int(dist) <= historySize && int(dist) <= offset
 //@   loop 3 invariant forall k :: 0 <= k && k < matchLength ==> input[offset-int(dist)+k] == input[offset+k]
 //@   loop 3 invariant tokensOK(tokens) && tokOK(token)
+//@   loop 3 invariant[C01 tokens-counted] int(repeat) >= 0 && (repeat == 0 ==> matchLength > 258) && len(tokens) >= old(len(tokens)) + int(repeat) && (old(cntSmall(hist)) ==> cntGrow(hist, atentry(offset) - old(offset)) && (forall k :: old(len(tokens)) <= k && k < len(tokens) - int(repeat) ==> tokCounted(tokens[k], hist)) && (forall k :: len(tokens) - int(repeat) <= k && k < len(tokens) ==> tokens[k] == token))
 //@   loop 4 invariant 0 <= i && i <= 3 && posInv(table, historySize, relative, offset, 2)
 //@   loop 5 invariant offset - len(tokens) == atentry(offset) - atentry(len(tokens))
+//@   loop 5 invariant[C01 tokens-counted] old(cntSmall(hist)) ==> cntGrow(hist, offset - old(offset)) && (forall k :: old(len(tokens)) <= k && k < len(tokens) ==> tokCounted(tokens[k], hist))
 //@   loop 5 invariant old(offset) <= offset && offset <= len(input) && len(tokens) <= maxToken && sameobj(tokens, old(tokens)) && cap(tokens) == old(cap(tokens)) && len(tokens) >= old(len(tokens)) && posInv(table, historySize, relative, offset, 0) && offset + 8 >= len(input) && tokensOK(tokens)
 
 // ---------------------------------------------------------------------------
